@@ -5,7 +5,7 @@ Cross-check of extraction for C06: recomputes, INSIDE Coq with vm_compute, the n
 extracted OCaml oracle computed for the first `max_cases` scenario records, per ListUsers request:
 validate; every possible answer of Query/ListUsers.v list_users (number of answers, each answer's
 length and subject codes), error and ambiguity class masks, the trigger flags (race, excl_cycle,
-union/inter/excl/merge _den_fail) as a bit mask, stratified, and (converged, holds3) for every
+union/inter/excl/merge _den_fail) as a bit mask, the distinct-key counts behind the result-limit verdict, stratified, and (converged, holds3) for every
 subject whose reference value enters the verdict (returned entries, then the candidates of the
 completeness predicate in the order of the record's check section).  Compares them with the
 oracle's dump.  Prints `COQREPLAY ok ...` or the mismatches; exit 1 on a mismatch."""
@@ -84,12 +84,13 @@ PRELUDE = ["From OFGA Require Import Query.ListUsers.", "Open Scope N_scope.",
      "Definition emask (l : list lerr) : N := fold_left (fun acc e => N.lor acc (ebit e)) l 0.",
      "Definition tmask (t : ltrig) : N := bN (tg_race t) + 2 * bN (tg_excl_cycle t) + 4 * bN (tg_union t) + 8 * bN (tg_inter t) + 16 * bN (tg_excl t) + 32 * bN (tg_merge t).",
      "Definition rq (m : model) (cs : list cid) (st : list tuple) (strat : bool) (ft : tid) (fr : rid) (depth : nat)",
-     "  (pruned skip semok : bool) (o : obj) (r : rid) (sems : list (subject * (valuation * bool))) : list N :=",
+     "  (pruned skip semok lim : bool) (o : obj) (r : rid) (sems : list (subject * (valuation * bool))) : list N :=",
      "  match validate m ft fr o r with",
      "  | Some VType => [1] | Some VRel => [2]",
      "  | None => 0 :: if skip then [] else",
      "      let lf := list_users m cs st ft fr depth pruned o r in",
      "      (N.of_nat (length (lf_results lf)) :: flat_map (fun res => N.of_nat (length res) :: map scode res) (lf_results lf))",
+     "      ++ (if lim then let ks := list_users_nkeys m cs st ft fr depth pruned o r in N.of_nat (length ks) :: map N.of_nat ks else [])",
      "      ++ [emask (lf_errs lf); emask (lf_amb lf); tmask (lf_trig lf); bN strat]",
      "      ++ (if semok && strat then N.of_nat (length sems) :: flat_map (fun p : subject * (valuation * bool) =>",
      "             [bN (snd (snd p)); code3 (atomval (fst p) (fst (snd p)) o r)]) sems else [0])",
@@ -117,7 +118,7 @@ def gen_case(cid, vals):
     else:
         want[cid] = []
     for qi in pick(len(requests)):
-        ot, oi, r, ft, fr, depth, limit, edges, outcome, users = requests[qi]
+        ot, oi, r, ft, fr, depth, limit, edges, outcome, users = requests[qi][:10]
         skip = outcome >= 8 or outcome == 6 or edges == 2
         semok = outcome == 0 and not skip
         wanted = []
@@ -149,8 +150,8 @@ def gen_case(cid, vals):
                 want[cid] += line[:-2 * k - 1] + [kk] + line[len(line) - 2 * k:len(line) - 2 * k + 2 * kk]
             else:
                 want[cid] += line          # no Sem values were used (not stratified / error / none): ends with 0
-        parts.append("rq m cs st strat %s %s %d%%nat %s %s %s %s %s %s" % (
-            N(ft), N(fr), depth, bool_(edges == 0), bool_(skip), bool_(semok), obj(ot, oi), N(r), lst(sems)))
+        parts.append("rq m cs st strat %s %s %d%%nat %s %s %s %s %s %s %s" % (
+            N(ft), N(fr), depth, bool_(edges == 0), bool_(skip), bool_(semok), bool_(limit > 0), obj(ot, oi), N(r), lst(sems)))
     body = " ++ ".join(parts) or "[]"
     return ("Definition case_%s : list N := let m := %s in let cs := %s in let st := %s in let ats := %s in "
             "let strat := stratified m in %s %s." % (
